@@ -976,6 +976,32 @@ fn lower_fn_parts(sig: &mut Signature, block: &mut Block, errors: &mut Vec<Strin
     (ts, stats)
 }
 
+/// L5: the pattern traits are abstracted; the only supertrait the code relies on (`Pattern<'a>: Copy`) is kept
+fn strip_bounds(g: &mut Generics) {
+    let had_pattern = |tp: &TypeParam, wc: &Option<WhereClause>| -> bool {
+        let in_bounds = tp.bounds.iter().any(|b| matches!(b, TypeParamBound::Trait(t) if t.path.segments.last().map(|s| s.ident == "Pattern").unwrap_or(false)));
+        let in_where = wc.as_ref().map(|w| w.predicates.iter().any(|p| match p {
+            WherePredicate::Type(pt) => matches!(&pt.bounded_ty, Type::Path(q) if q.path.is_ident(&tp.ident))
+                && pt.bounds.iter().any(|b| matches!(b, TypeParamBound::Trait(t) if t.path.segments.last().map(|s| s.ident == "Pattern").unwrap_or(false))),
+            _ => false,
+        })).unwrap_or(false);
+        in_bounds || in_where
+    };
+    let wc = g.where_clause.clone();
+    for gp in g.params.iter_mut() {
+        if let GenericParam::Type(tp) = gp {
+            let keep_copy = had_pattern(tp, &wc);
+            tp.bounds.clear();
+            tp.colon_token = None;
+            if keep_copy {
+                tp.colon_token = Some(Default::default());
+                tp.bounds.push(parse_quote!(Copy));
+            }
+        }
+    }
+    g.where_clause = None;
+}
+
 fn make_pub_fields(it: &mut Item) {
     match it {
         Item::Struct(s) => {
@@ -1134,7 +1160,7 @@ fn main() {
     enum Req {
         Fn(String, Option<String>, Vec<(String, String)>, bool),
         Impl(String, Vec<String>, Vec<(String, String)>, bool),
-        Ty(String),
+        Ty(String, bool),
     }
     let mut rs = Vec::new();
     let mut known: HashSet<String> = HashSet::new();
@@ -1178,7 +1204,7 @@ fn main() {
             }
             "struct" | "enum" => {
                 known.insert(w[1].rsplit("::").next().unwrap().to_string());
-                rs.push(Req::Ty(w[1].to_string()));
+                rs.push(Req::Ty(w[1].to_string(), w.iter().any(|x| *x == "nobounds")));
             }
             "known" => {
                 for k in &w[1..] {
@@ -1208,13 +1234,7 @@ fn main() {
                     let mut sig = f.sig.clone();
                     if nobounds {
                         // L5: the pattern traits are abstracted (DESIGN 4.2): bounds and where-clauses are dropped
-                        sig.generics.where_clause = None;
-                        for gp in sig.generics.params.iter_mut() {
-                            if let GenericParam::Type(tp) = gp {
-                                tp.bounds.clear();
-                                tp.colon_token = None;
-                            }
-                        }
+                        strip_bounds(&mut sig.generics);
                     }
                     let mut block = (*f.block).clone();
                     lower_fn_parts(&mut sig, &mut block, &mut errors, &path)
@@ -1265,13 +1285,7 @@ fn main() {
                                 found.insert(name.clone());
                                 let mut sig = m.sig.clone();
                                 if nobounds {
-                                    sig.generics.where_clause = None;
-                                    for gp in sig.generics.params.iter_mut() {
-                                        if let GenericParam::Type(tp) = gp {
-                                            tp.bounds.clear();
-                                            tp.colon_token = None;
-                                        }
-                                    }
+                                    strip_bounds(&mut sig.generics);
                                 }
                                 let mut block = m.block.clone();
                                 let what = format!("{}#{}::{}", path, k, name);
@@ -1293,7 +1307,11 @@ fn main() {
                     if fns_ts.is_empty() {
                         continue;
                     }
-                    let (ig, _, wc) = im.generics.split_for_impl();
+                    let mut impl_generics = im.generics.clone();
+                    if nobounds {
+                        strip_bounds(&mut impl_generics);
+                    }
+                    let (ig, _, wc) = impl_generics.split_for_impl();
                     let self_ty = &im.self_ty;
                     let body: Vec<TokenStream> = fns_ts.iter().map(|(n, ts)| {
                         let tag = ident(&format!("__K2V_METHOD_{}_{}__", k, n));
@@ -1316,14 +1334,36 @@ fn main() {
                     }
                 }
             }
-            Req::Ty(path) => {
+            Req::Ty(path, nobounds) => {
                 let Some(it) = idx.types.get(&path) else {
                     missing.push(path);
                     continue;
                 };
                 let mut it = it.clone();
                 make_pub_fields(&mut it);
+                if nobounds {
+                    let g: Option<&mut Generics> = match &mut it {
+                        Item::Struct(s) => Some(&mut s.generics),
+                        Item::Enum(e) => Some(&mut e.generics),
+                        _ => None,
+                    };
+                    if let Some(g) = g {
+                        strip_bounds(g);
+                    }
+                }
                 let mut ts = it.to_token_stream();
+                if nobounds {
+                    // type parameters whose bounds were dropped may sit under an abstracted (external) type:
+                    // Verus asks for this attribute then; it only restricts recursive instantiation
+                    let gens: Vec<Ident> = match &it {
+                        Item::Struct(s) => s.generics.type_params().map(|t| t.ident.clone()).collect(),
+                        Item::Enum(e) => e.generics.type_params().map(|t| t.ident.clone()).collect(),
+                        _ => Vec::new(),
+                    };
+                    for gname in gens {
+                        ts = quote! { #[verifier::reject_recursive_types(#gname)] #ts };
+                    }
+                }
                 if idx.copy_types.contains(&path) {
                     ts = quote! { #[derive(Clone, Copy)] #ts };
                 }
